@@ -99,6 +99,42 @@ def run(ctx, chk):
                    detail={"held": sorted(held), "reserve_guard": g, "decision_guards": sorted(str(x) for x in dguards)},
                    key="A10.2b|held_at|write_with|reserve",
                    msg="the relocation target must be reserved before the layout lock that chose it is released")
+    # A10.2c a placement decision is *claimed* before the layout lock that made it is released: after every
+    # layout_mut() in write_with, file growth and data writes happen only after a claim (set_reserved /
+    # Layout::reserve) was made while LAYOUT:W was still held (Layout::len() must already cover the new space
+    # when other threads allocate in the window that A10.3 opens)
+    lm = O.need_sites(ww, M(r"rawdb::Database::layout_mut"), 2)
+    claim = M(r"rawdb::layout::Layout::reserve|rawdb::region_metadata::RegionMetadata::set_reserved",
+              where=lambda body, b, t: ("LAYOUT", "W") in O.held_classes(body, b))
+    claims = O.sites(ww, claim)
+    st = O.typestate(ww, True, claims, lm)
+    uses = O.sites(ww, M(r"rawdb::Database::(write|copy|set_min_len)"))
+    bad = [b for b in uses if not st[b]]
+    chk.oblige("A10.2c write_with: growth/data writes after layout_mut() only once the new space is claimed under "
+               "LAYOUT:W [%d claim sites, %d uses]" % (len(claims), len(uses)), not bad and len(claims) >= 3,
+               detail={"unclaimed_uses": [ww.blocks[b]["term"].get("span") for b in bad]},
+               key="A10.2c|typestate|write_with|claim-before-release",
+               msg="the space a region grows into must be claimed (set_reserved / Layout::reserve) before the layout "
+                   "lock is released, or another thread is handed the same extent while the file is grown")
+    # A10.6 a Reader pins its region: it owns a Region clone (removal is refused while it is alive)
+    rd = P.adts.get("rawdb::reader::Reader")
+    if rd is None:
+        raise AnchorMissing("rawdb::reader::Reader not found")
+    pins = [f["name"] for f in rd["variants"][0]["fields"] if f["ty"] == "rawdb::region::Region"]
+    rn = O.body("rawdb::reader::Reader::new")
+    cloned = False
+    for b in rn.reachable():
+        for stt in rn.blocks[b]["stmts"]:
+            if stt[0] == "assign" and stt[2]["k"] == "agg" and stt[2].get("adt") == "rawdb::reader::Reader":
+                for o in stt[2]["ops"]:
+                    if ("m" in o or "c" in o) and rn.locals[(o.get("m") or o.get("c"))["l"]]["ty"] == "rawdb::region::Region":
+                        sl = O.slice_back(rn, o)
+                        cloned = any(c.endswith("Clone>::clone") or c.endswith("Clone::clone") for c in sl["calls"]) \
+                            and 1 in sl["params"]
+    chk.oblige("A10.6 Reader owns a clone of its Region (field(s) %s) taken from the region it reads" % pins,
+               bool(pins) and cloned, key="A10.6|reader-pins-region",
+               msg="a live Reader must keep its region referenced, otherwise the region can be removed and its extent "
+                   "reused while the reader still returns bytes from it")
     # A10.3 LAYOUT is not held at any call that reaches set_min_len
     smm = M(r"rawdb::Database::set_min_len", reach=True)
     n = 0
